@@ -67,10 +67,6 @@ Check C08_model_is_translated_source_range_ctor :
                     | Some e => gen_range_new_exclusive e x y
                     | None => None
                     end) = Some (range_exclusive x y).
-Check C08_source_slice_position_i32_min_refuted :
-  forall len default,
-    gen_slice_get_idx (Some i32_min) len default = None /\
-    slice_get_idx (Some i32_min) len default = (len - 2147483648)%N.
 
 (** non-vacuity and the definitions the statements rest on, pinned by evaluation: instances whose
     hypotheses hold and where both sides are a real element / a real view *)
@@ -100,4 +96,6 @@ Check eq_refl : gen_extended (Some 3%N) (Some 0%N) = ETakeA.
 Check eq_refl : gen_extended (Some 999%N) (Some 1%N) = EFlatten [0%N; 1%N].
 Check eq_refl : gen_extended (Some 999%N) (Some 2%N) = ELink.
 Check eq_refl : decode_eres (Vec [EId 1]) (Vec [EId 2]) (gen_extended (Some 1%N) (Some 1%N)) = Some (Vec [EId 1; EId 2]).
-Check eq_refl : pos_ok (Some (-2147483647)%Z) = ((i32_min < -2147483647 <= i32_max)%Z).
+Check eq_refl : pos_ok (Some (-2147483648)%Z) = ((i32_min <= -2147483648 <= i32_max)%Z).
+Check eq_refl : gen_slice (Some 3%N) (Some (-2147483648)%Z) None None = SSlice 0 3 1.
+Check eq_refl : gen_slice (Some 3%N) None (Some (-2147483648)%Z) None = SEmpty.
